@@ -1,4 +1,5 @@
-\* inputs with >= 128 bytes of leading whitespace (all top kinds, <= 2 entries of the class representatives); exported
+\* the code as it is: all top-level kinds, <= 2 class representatives, with and without >= 128 bytes of leading
+\* whitespace; rows exported.  measured: 8 924 distinct states
 CONSTANTS
   Methods <- MCMethods
   EntryAlphabet <- EntriesSmall
@@ -6,9 +7,9 @@ CONSTANTS
   MaxEntries = 2
   PoolSize = 2
   BatchDisabled = FALSE
-  FixNotif = FALSE
+  FixNotif = TRUE
   FixNonRequest = FALSE
-  FixLongWs = FALSE
+  FixLongWs = TRUE
   FarChoices = {TRUE, FALSE}
 INIT TableInit
 NEXT TableNext
